@@ -30,7 +30,8 @@ impl Thread {
             self.m.poke(a, b);
         }
         self.m.set_regs(regs);
-        let ex = exit.map(|e| format!(",\"exit\":[{},{}]", e >> 16, e & 0xffff)).unwrap_or_default();
+        // `done` = the program's end label: where the adaptive drivers stop stepping (used when a history is re-driven)
+        let ex = exit.map(|e| format!(",\"done\":[{},{}]", e >> 16, e & 0xffff)).unwrap_or_default();
         writeln!(self.w, "{{\"k\":\"load\",\"id\":{},\"bg\":\"{}\",\"pre\":{},\"pk\":{},\"pend\":[]{}}}", self.id, self.m.bg.name(), j_u32s(&regs.vec19()), j_runs(pokes), ex)?;
         self.id += 1;
         Ok(())
@@ -267,7 +268,7 @@ pub fn run_irq_replay(args: &Args) -> Result<()> {
                 // random schedules; executed silently for the enumerated ones to keep the volume down)
                 let mut guard = 0;
                 if k >= ns {
-                    th.load(&regs, &prog.pokes, None)?;
+                    th.load(&regs, &prog.pokes, Some(prog.done))?;
                     nh += 1;
                     while th.m.cpu.vh_pc() != prog.done && guard < 4000 {
                         if th.boundary()? != "ok" || th.step()? != "ok" {
@@ -295,7 +296,7 @@ pub fn run_irq_replay(args: &Args) -> Result<()> {
                 }
                 let reference = projection(&th.m, &prog);
                 // ---- the run with requests injected
-                th.load(&regs, &prog.pokes, None)?;
+                th.load(&regs, &prog.pokes, Some(prog.done))?;
                 nh += 1;
                 let mut failed = false;
                 for (op, x) in &s {
@@ -475,7 +476,7 @@ pub fn run_handler_cases(args: &Args) -> Result<()> {
         regs.er[7] = if v % 3 == 0 { 0x5fff00 } else { 0xffef00 };
         regs.ccr = (rng.u8() & 0x7f) & !0x80; // I clear
         regs.pc = org;
-        th.load(&regs, &pokes, None)?;
+        th.load(&regs, &pokes, Some(labels["done"]))?;
         nh += 1;
         let mut fired = [false; 3];
         for _ in 0..60 {
@@ -632,7 +633,7 @@ pub fn run_callret(args: &Args) -> Result<()> {
                 regs.er[7] = sp;
                 regs.ccr = rng.u8();
                 regs.pc = labels["main"];
-                th.load(&regs, &pokes, None)?;
+                th.load(&regs, &pokes, Some(labels["done"]))?;
                 nh += 1;
                 let mut guard = 0;
                 while th.m.cpu.vh_pc() != labels["done"] && guard < 3000 {
